@@ -276,8 +276,20 @@ impl Prop for C01 {
             Tier::Thorough => 4000,
         }
     }
-    fn gen_case(&self, rng: &mut Rng, tier: Tier, _index: usize) -> Vec<String> {
-        gen_crdt_case(rng, tier)
+    fn gen_case(&self, rng: &mut Rng, tier: Tier, index: usize) -> Vec<String> {
+        // one case in five drives real agents (slower); the others plain cr-sqlite databases
+        if index % 5 == 4 {
+            let mix = crate::cluster::GenMix {
+                nodes: (2, 3),
+                ops: if tier == Tier::Thorough { (8, 40) } else { (6, 22) },
+                crash: true,
+                partial_chunks: true,
+                lossy_sync: true,
+            };
+            crate::cluster::gen_cluster_case(rng, &mix)
+        } else {
+            gen_crdt_case(rng, tier)
+        }
     }
     fn end(&self) {
         cleanup_template();
@@ -303,6 +315,14 @@ impl Prop for C01 {
                 r.tags.push(out.clone());
             }
             r.outputs.push(out);
+        }
+        if cl.is_some() {
+            for f in crate::cluster::convergence_oracle(ops, &r.outputs) {
+                r.oracle_failures.push(f);
+            }
+            r.nontrivial = ops.iter().filter(|o| o.starts_with("nsync") || o.starts_with("nb")).count() >= 3;
+            r.tags.push("cluster".into());
+            return r;
         }
         // oracle: the trailing block of `dump` ops (after the all-to-all merge) must agree on everything but
         // nothing here knows the model: compare the dumps with each other
